@@ -1520,6 +1520,25 @@ fn main() {
         st.merge(s);
         kinds = k;
     }
+    // ---- D. a file the user force-includes through a clang argument (`-- -include pre.h`) is read like any other
+    if want("C") {
+        let sc = Scratch::new("c17userinc");
+        let root = std::fs::canonicalize(&sc.0).unwrap();
+        std::fs::write(root.join("pre.h"), "#define C17_PRE 1\ntypedef int c17_pre_t;\n").unwrap();
+        std::fs::write(root.join("inc.h"), "extern int c17_inc_v;\n").unwrap();
+        std::fs::write(root.join("a.h"), "#include \"inc.h\"\nc17_pre_t c17_f(void);\n").unwrap();
+        let mut cmd = Command::new(bgverif::drive::cli_path());
+        cmd.args(["a.h", "--depfile", "d.d", "-o", "out.rs", "--", "-include", "pre.h"]).current_dir(&root);
+        let (rc, _o, e) = run(&mut cmd);
+        st.inc("D.user_include_runs");
+        let dep = std::fs::read_to_string(root.join("d.d")).unwrap_or_default();
+        let has = |n: &str| dep.split_whitespace().any(|w| w.trim_start_matches("./") == n);
+        let wit = jobj(&[("part", json_str("D")), ("command", json_str("bindgen a.h --depfile d.d -o out.rs -- -include pre.h")), ("depfile_text", json_str(dep.trim())), ("clang_M", json_str("a.o: a.h pre.h inc.h"))]);
+        if rc != 0 { st.fail("oracle-failure", "user-include-run-failed", jobj(&[("stderr", json_str(&e.chars().take(300).collect::<String>()))])); }
+        else if has("a.h") && has("inc.h") && !has("pre.h") { st.known("user_include_arg_not_reported", wit); }
+        else if has("a.h") && has("inc.h") && has("pre.h") { st.inc("D.user_include_reported"); }
+        else { st.fail("oracle-failure", "depfile-set-vs-files-read", wit); }
+    }
     let tc = t0.elapsed().as_secs_f64();
     // report
     let counters: Vec<String> = st.counters.iter().map(|(k, v)| format!("{}:{}", json_str(k), v)).collect();
